@@ -63,16 +63,26 @@ def main():
     cases = mod.gen_cases(seed, tier)
     log('[%s] %d cases generated in %.1fs' % (pid, len(cases), time.time() - t0))
     t0 = time.time()
-    impl_out = common.pmap(mod.impl, cases, secs=getattr(mod, 'CASE_TIMEOUT', 5.0))
+    secs = getattr(mod, 'CASE_TIMEOUT', 5.0)
+    impl_out = common.pmap(mod.impl, cases, secs=secs)
+    impl_suspect = set(common.SUSPECT)
     log('[%s] implementation ran in %.1fs' % (pid, time.time() - t0))
     t0 = time.time()
     model_out = common.run_model([c['wire'] for c in cases])
     log('[%s] model ran in %.1fs' % (pid, time.time() - t0))
     disagreements = []
     cmp = getattr(mod, 'same', lambda m, i, c: m == i)
-    for c, m, i in zip(cases, model_out, impl_out):
+    rechecked = 0
+    for k, (c, m, i) in enumerate(zip(cases, model_out, impl_out)):
         if isinstance(i, tuple):
             i = '!' + ':'.join(map(str, i[:2]))
+        if not cmp(m, i, c) and k in impl_suspect and rechecked < common.RECHECK_LIMIT:
+            # computed in a worker one of whose earlier cases was interrupted: evaluate it again, alone
+            rechecked += 1
+            i = common.fresh_eval(mod.impl, c, secs * 4)
+            impl_out[k] = i
+            if isinstance(i, tuple):
+                i = '!' + ':'.join(map(str, i[:2]))
         if not cmp(m, i, c):
             disagreements.append({'case': c.get('desc'), 'model': m[:600], 'implementation': i[:600]})
     if disagreements:
@@ -89,7 +99,13 @@ def main():
     ocases = list(cases)
     if hasattr(mod, 'extra_search') and (rep.unproved or tier == 'thorough' or getattr(mod, 'ALWAYS_SEARCH', False)):
         ocases += mod.extra_search(seed, tier, bool(rep.unproved))
-    orc = common.pmap(mod.oracle, ocases, secs=getattr(mod, 'CASE_TIMEOUT', 5.0))
+    orc = common.pmap(mod.oracle, ocases, secs=secs)
+    orc_suspect = set(common.SUSPECT)
+    n_re = 0
+    for k in sorted(orc_suspect):
+        if orc[k] is not None and n_re < common.RECHECK_LIMIT:
+            n_re += 1
+            orc[k] = common.fresh_eval(mod.oracle, ocases[k], secs * 4)
     log('[%s] property oracle on the real code ran in %.1fs over %d cases' % (pid, time.time() - t0, len(ocases)))
     fails = []
     for c, r in zip(ocases, orc):
